@@ -57,13 +57,14 @@ def attr_value(key, kind, nch, labs=None):
 def make_image(im, nprng, labels=None):
     shape = SHAPES[im["shape"]]
     nch = im["channels"]
-    full = shape + ((nch,) if nch > 1 else ())
+    one_label_axis = nch == 1 and any(str(v).startswith("per_channel") for v in im["attrs"].values())
+    full = shape + ((nch,) if nch > 1 or one_label_axis else ())
     if im["dtype"].startswith("uint"):
         arr = nprng.integers(0, 200 if im["dtype"] == "uint8" else 60000, size=full).astype(im["dtype"])
     else:
         arr = (nprng.normal(size=full) * 10).astype(im["dtype"])
-    labs = labels or LABELS.get(nch)
-    extra = {"illumination": labs} if nch > 1 else None
+    labs = labels or (["red"] if one_label_axis else LABELS.get(nch))
+    extra = {"illumination": labs} if nch > 1 or one_label_axis else None
     kw = {k: attr_value(k, v, nch, labs) for k, v in im["attrs"].items()}
     from holopy.core.metadata import detector_grid
     img = detector_grid(shape, (0.1, 0.25), name="holo" if im["named"] else None, extra_dims=extra)
@@ -197,18 +198,26 @@ def run(ctx):
         g = ctx.tlc_graph("ImageIO", "ImageIO_tiff.cfg")
         edges = [e for e in g.edges if e[1] == "SaveLoadTiff"]
         if quick:
-            edges = rng.sample(edges, 120)
+            edges = rng.sample(edges, 200)
         for n, e in enumerate(edges):
             im = g.states[e[0]]["img"]
-            depth = e[2][0]
-            bits = g.states[e[3]]["hist"][-1][2]
-            ctx.case(("tiff", str(sorted(im.items())), depth))
+            depth, sc = e[2][0], e[2][1]
+            bits, rng_class = g.states[e[3]]["hist"][-1][2], g.states[e[3]]["hist"][-1][3]
+            ctx.case(("tiff", str(sorted(im.items())), depth, sc))
             try:
                 img, arr = make_image(im, nprng)
+                a0 = np.asarray(img.values, dtype=float)
+                if sc == "none_unit" and a0.max() > a0.min():     # the same picture with values inside [0, 1]
+                    img = img.copy(data=(0.1 + 0.8 * (a0 - a0.min()) / (a0.max() - a0.min())).astype(img.values.dtype))
+                    a0 = np.asarray(img.values, dtype=float)
+                w0 = float(a0.max() - a0.min())
+                scaling = {"auto": "auto", "pair_tight": (float(a0.min()), float(a0.max())),
+                           "pair_wide": (float(a0.min()) - 0.3 * w0 - 0.25, float(a0.max()) + 0.7 * w0 + 0.5),
+                           "none_unit": None}[sc]
                 path = os.path.join(tmp, "t_%d.tif" % n)
                 with warnings.catch_warnings():
                     warnings.simplefilter("ignore")
-                    hp.save_image(path, img, depth=depth)
+                    hp.save_image(path, img, scaling=scaling, depth=depth)
                     back = hp.load(path)
             except Exception as ex:
                 ctx.violation("tiff/exception/%s" % ("constant_image" if arr.max() == arr.min() else "depth%d" % depth),
@@ -217,7 +226,8 @@ def run(ctx):
             a = np.asarray(img.values, dtype=float).squeeze()
             b = np.asarray(back.values, dtype=float).squeeze()
             lo, hi = a.min(), a.max()
-            step = (hi - lo) / (2 ** bits - 1) if hi > lo else 0.0
+            spread = {"image": hi - lo, "pair": (scaling[1] - scaling[0]) if rng_class == "pair" else 0.0, "unit": 1.0}[rng_class]
+            step = spread / (2 ** bits - 1) if hi > lo else 0.0
             # the rescaling is done in the image's own dtype: a float32 image carries its own rounding
             # (a few ulp of the value range) on top of the stated half quantisation step
             vt = np.asarray(img.values).dtype
@@ -239,7 +249,7 @@ def run(ctx):
                 elif im["named"] and back.name != img.name:
                     bad = ("name", {"impl": back.name})
             if bad:
-                ctx.violation("tiff/%s" % bad[0], dict(bad[1], img=im, depth=depth))
+                ctx.violation("tiff/%s%s" % (bad[0], "" if sc == "auto" else "/" + sc), dict(bad[1], img=im, depth=depth, scaling=sc))
             else:
                 ctx.trace_ok()
             os.remove(path)
